@@ -13,10 +13,12 @@ import (
 	"time"
 
 	"deps.dev/util/resolve"
+	"deps.dev/util/resolve/dep"
 	mavenresolve "deps.dev/util/resolve/maven"
 	npmresolve "deps.dev/util/resolve/npm"
 	pypiresolve "deps.dev/util/resolve/pypi"
 	"deps.dev/util/resolve/schema"
+	"deps.dev/util/resolve/version"
 	"deps.dev/util/resolve/verifh/internal/ev"
 	"deps.dev/util/resolve/verifh/internal/gen"
 	"deps.dev/util/resolve/verifh/internal/iso"
@@ -95,6 +97,29 @@ func buildClient(u gen.Universe, perm []int) (*resolve.LocalClient, *schema.Sche
 }
 
 // snapshot renders everything the client reports, order included.
+// depAttrs and verAttrs read every attribute key through GetAttr: the printed
+// form of a set is driven by its key bits, the stored values live in a map
+// that a copy of the set shares, so a write through a copy shows only here.
+func depAttrs(t dep.Type) string {
+	var sb strings.Builder
+	for _, k := range []dep.AttrKey{dep.Dev, dep.Opt, dep.Test, dep.XTest, dep.Framework, dep.Scope, dep.MavenClassifier, dep.MavenArtifactType, dep.MavenDependencyOrigin, dep.MavenExclusions, dep.EnabledDependencies, dep.KnownAs, dep.Environment, dep.Selector} {
+		if v, ok := t.GetAttr(k); ok {
+			fmt.Fprintf(&sb, "{%d=%q}", k, v)
+		}
+	}
+	return sb.String()
+}
+
+func verAttrs(a version.AttrSet) string {
+	var sb strings.Builder
+	for _, k := range []version.AttrKey{version.Blocked, version.Deleted, version.Error, version.Redirect, version.Features, version.DerivedFrom, version.NativeLibrary, version.Registries, version.SupportedFrameworks, version.DependencyGroups, version.Ident, version.Created, version.Tags} {
+		if v, ok := a.GetAttr(k); ok {
+			fmt.Fprintf(&sb, "{%d=%q}", k, v)
+		}
+	}
+	return sb.String()
+}
+
 func snapshot(c resolve.Client, s *schema.Schema) string {
 	ctx := context.Background()
 	var sb strings.Builder
@@ -115,14 +140,14 @@ func snapshot(c resolve.Client, s *schema.Schema) string {
 		vs, err := c.Versions(ctx, p.PackageKey)
 		fmt.Fprintf(&sb, "V %s: err=%v", p.Name, err)
 		for _, v := range vs {
-			fmt.Fprintf(&sb, " %s%s", v.Version, v.AttrSet)
+			fmt.Fprintf(&sb, " %s%s%s", v.Version, v.AttrSet, verAttrs(v.AttrSet))
 		}
 		sb.WriteByte('\n')
 		for _, v := range p.Versions {
 			reqs, err := c.Requirements(ctx, v.VersionKey)
 			fmt.Fprintf(&sb, "R %s@%s: err=%v", p.Name, v.Version, err)
 			for _, r := range reqs {
-				fmt.Fprintf(&sb, " %s@%s[%s]", r.Name, r.Version, r.Type)
+				fmt.Fprintf(&sb, " %s@%s[%s]%s", r.Name, r.Version, r.Type, depAttrs(r.Type))
 			}
 			sb.WriteByte('\n')
 		}
@@ -329,7 +354,7 @@ func runHistory(h histCase) (int, string, string) {
 func universeGen(sys string) *rapid.Generator[gen.Universe] {
 	switch sys {
 	case "npm":
-		return gen.NPMUniverse(gen.NPMOpts{Aliases: true, Ties: true})
+		return gen.NPMUniverse(gen.NPMOpts{Aliases: true, Ties: true, Bundles: true})
 	case "maven":
 		return gen.MavenUniverse(gen.MavenUOpts{})
 	}
@@ -414,7 +439,11 @@ func machine(sys string, concurrentOnly bool) func(*rapid.T) {
 			acts["again"] = func(t *rapid.T) { step(action{Kind: "again"}) }
 			acts["reload"] = func(t *rapid.T) {
 				nontrivial = true
-				step(action{Kind: "reload", Perm: rapid.Permutation(seq(nroots)).Draw(t, "perm")})
+				nall := 0
+				for _, p := range u.Pkgs {
+					nall += len(p.Versions) // bundled (derived) packages included: they are data, not roots
+				}
+				step(action{Kind: "reload", Perm: rapid.Permutation(seq(nall)).Draw(t, "perm")})
 			}
 		}
 		t.Repeat(acts)
